@@ -22,10 +22,10 @@
 namespace scn {
 
 enum { S_SPAWN_DISCARD = 0, S_SPAWN_AWAIT_SP, S_CALL_CHILD, S_PAUSE, S_RESOLVE_DISCARD, S_RESOLVE_AWAIT, S_AWAIT_FUT, S_LOCK, S_UNLOCK_DISCARD,
-       S_UNLOCK_AWAIT, S_PUSH_DISCARD, S_PUSH_AWAIT, S_POP, S_NKINDS };
+       S_UNLOCK_AWAIT, S_PUSH_DISCARD, S_PUSH_AWAIT, S_POP, S_START_CHILD, S_JOIN_STARTED, S_NKINDS };
 inline const char *sk_name(int k) {
     static const char *n[] = {"spawn", "co_await spawn", "co_await child()", "pause", "resolve", "co_await resolve", "await", "lock", "unlock", "co_await unlock",
-                              "push", "co_await push", "pop"};
+                              "push", "co_await push", "pop", "start() child", "join started child"};
     return n[k];
 }
 struct c5_step { int kind; int arg; };
@@ -59,6 +59,7 @@ inline cocls::async<void> c5_coro(c5_world &W, int cid) {
     W.on_resume(cid);
     {
         cocls::mutex::ownership own;
+        std::vector<std::unique_ptr<cocls::future<void>>> started; // children started with start(): nested run, joined before this coroutine ends
         const std::vector<c5_step> &sc = W.scripts[(size_t)W.script_of[cid]];
         try {
             for (size_t pc = 0; pc < sc.size(); pc++) {
@@ -77,6 +78,17 @@ inline cocls::async<void> c5_coro(c5_world &W, int cid) {
                     if (ch >= 0) {
                         if (own) own.release(); // never wait for a child while holding the mutex (scripted self-deadlock otherwise)
                         W.on_suspend(cid); co_await c5_coro(W, ch); W.on_resume(cid);
+                    }
+                    break;
+                }
+                case S_START_CHILD: {
+                    int ch = W.new_cid(st.arg);
+                    if (ch >= 0) {
+                        // start(): the child runs NESTED inside this call until it suspends or finishes, then this coroutine continues.
+                        // Nothing this coroutine queued before may run in between.
+                        W.on_suspend(cid);
+                        started.push_back(std::unique_ptr<cocls::future<void>>(new cocls::future<void>(c5_coro(W, ch).start())));
+                        W.on_resume(cid);
                     }
                     break;
                 }
@@ -103,6 +115,15 @@ inline cocls::async<void> c5_coro(c5_world &W, int cid) {
                 W.log(cid, EV_END, (int)pc, st.kind);
             }
         } catch (const c5_stop &) {}
+        if (own && !started.empty()) own.release(); // never join a child while holding the mutex it may need
+        for (size_t k = 0; k < started.size(); k++) { // the futures live in this frame: wait for the started children (also when stopping)
+            W.log(cid, EV_BEGIN, 1000 + (int)k, S_JOIN_STARTED);
+            W.on_suspend(cid);
+            bool hv = co_await started[k]->has_value();
+            (void)hv;
+            W.on_resume(cid);
+            W.log(cid, EV_END, 1000 + (int)k, S_JOIN_STARTED);
+        }
         W.log(cid, EV_FINISH);
         W.finished++;
         W.on_suspend(cid); // the ownership destructor below only queues (coroutine mode), it must not run anybody
@@ -118,10 +139,11 @@ struct c5_model {
     int running = NONE;
     std::vector<int> transfer;              // coroutines delivered by an awaited suspend point / completion hand-over
     std::deque<std::vector<int>> queue;     // ready queue: groups in enqueue order
+    std::vector<int> callstack;             // coroutines that are inside a nested start() call (they continue when the nested activation returns)
     std::vector<int> pending_after_choice;  // group to append after the choice is known (awaiting coroutine re-queued last)
     std::vector<int> side;                  // delivered by a suspend point that ORDINARY code discarded: resumed one after the other by
                                             // that code, not through the ready queue - the statement does not order them against the queue
-    struct co { int pc = 0; int state = 0; /*0 new,1 ready,2 running,3 blocked,4 finished*/ bool mid_step = false; bool aborted = false; bool holds = false; int parent = -1; bool expect_end = false; };
+    struct co { int pc = 0; int state = 0; /*0 new,1 ready,2 running,3 blocked,4 finished*/ bool mid_step = false; bool aborted = false; bool holds = false; int parent = -1; bool expect_end = false; std::vector<int> started; };
     std::vector<co> C;
     bool fut_resolved[c5_world::NF] = {};
     std::vector<int> fut_wait[c5_world::NF];
@@ -140,6 +162,11 @@ struct c5_model {
         pending_after_choice.clear();
         if (requeue_self >= 0) pending_after_choice.push_back(requeue_self);
         if (transfer.empty() && requeue_self >= 0) { make_ready_group({requeue_self}); pending_after_choice.clear(); }
+        if (transfer.empty() && requeue_self < 0 && !callstack.empty()) {
+            // plain suspension / completion without a waiting party inside a nested start(): the nested resume() returns to its caller
+            running = callstack.back(); callstack.pop_back();
+            return;
+        }
         running = (transfer.empty() && queue.empty() && side.empty()) ? NONE : CHOOSE;
     }
     void deliver_from_ordinary_code(const std::vector<int> &g) { for (int c : g) { C[(size_t)c].state = 1; side.push_back(c); } if (!g.empty()) running = CHOOSE; }
@@ -185,7 +212,7 @@ struct c5_model {
         for (size_t i = 0; i < tr.size() && err.empty(); i++) {
             const c5_event &e = tr[i];
             if (e.kind == EV_NORMAL) {
-                if (running != NONE) { err = "ordinary code continued while a coroutine was still ready or running (ready queue not drained)" + where(e, i); break; }
+                if (running != NONE || !callstack.empty()) { err = "ordinary code continued while a coroutine was still ready or running (ready queue not drained)" + where(e, i); break; }
                 switch (e.a) {
                 case NA_START_ROOT: { int c = spawn(e.b); if (c >= 0) deliver_from_ordinary_code({c}); break; }
                 case NA_RESOLVE: if (!fut_resolved[e.b]) { fut_resolved[e.b] = true; std::vector<int> g = fut_wait[e.b]; fut_wait[e.b].clear(); deliver_from_ordinary_code(g); } break;
@@ -208,16 +235,27 @@ struct c5_model {
             const std::vector<c5_step> &sc = W.scripts[(size_t)W.script_of[c]];
             if (e.kind == EV_FINISH) {
                 if (x.mid_step && !x.aborted) { err = "coroutine finished in the middle of a step" + where(e, i); break; }
+                x.mid_step = false;
                 finish(c);
                 continue;
             }
             if (e.kind == EV_END) {
                 if (!x.mid_step || x.pc != e.a) { err = "unexpected END" + where(e, i); break; }
-                if (x.aborted) { err = "cancelled pop continued normally" + where(e, i); break; }
+                if (x.aborted && e.b != S_JOIN_STARTED) { err = "cancelled pop continued normally" + where(e, i); break; }
                 x.mid_step = false; x.pc++;
                 continue;
             }
             // BEGIN
+            if (e.b == S_JOIN_STARTED) {
+                size_t k = (size_t)(e.a - 1000);
+                if (x.mid_step && x.aborted) x.mid_step = false; // the cancelled pop was abandoned
+                if (x.mid_step || k >= x.started.size()) { err = "unexpected join" + where(e, i); break; }
+                if (x.holds) { x.holds = false; release_mutex_discard(); } // released before joining (scripted deadlock otherwise)
+                x.mid_step = true; x.pc = e.a;
+                int ch = x.started[k];
+                if (C[(size_t)ch].state != 4) { C[(size_t)ch].parent = c; x.state = 3; yield_cpu({}, -1); }
+                continue;
+            }
             if (x.mid_step || x.pc != e.a || (size_t)e.a >= sc.size()) { err = "unexpected BEGIN" + where(e, i); break; }
             if (stopping) { err = "step started after stop was requested" + where(e, i); break; }
             const c5_step st = sc[(size_t)e.a];
@@ -228,6 +266,11 @@ struct c5_model {
             case S_CALL_CHILD: {
                 int ch = spawn(st.arg);
                 if (ch >= 0) { if (x.holds) { x.holds = false; release_mutex_discard(); } C[(size_t)ch].parent = c; x.state = 3; yield_cpu({ch}, -1); }
+                break;
+            }
+            case S_START_CHILD: {
+                int ch = spawn(st.arg);
+                if (ch >= 0) { x.started.push_back(ch); callstack.push_back(c); running = ch; C[(size_t)ch].state = 2; switches++; }
                 break;
             }
             case S_PAUSE: x.state = 1; yield_cpu({}, c); break;
@@ -255,24 +298,27 @@ struct c5_model {
     }
 };
 
-inline std::vector<c5_step> c5_random_script(vf::rng &r, int nscripts, int depth_budget) {
+// general scripts: indices [0, nscripts); nested-safe scripts (used for children started with start(), which run nested inside the
+// caller): indices [nscripts, nscripts+nsafe) - they never transfer control (no pause, no awaited suspend point, no co_await child)
+inline std::vector<c5_step> c5_random_script(vf::rng &r, int nscripts, int nsafe, bool nested_safe) {
     std::vector<c5_step> sc;
-    int len = 1 + (int)r.below(12);
+    int len = 1 + (int)r.below(nested_safe ? 6 : 12);
     for (int i = 0; i < len; i++) {
         uint32_t x = r.below(100);
         c5_step st{};
-        if (x < 10 && depth_budget > 0) { st.kind = S_SPAWN_DISCARD; st.arg = (int)r.below((uint32_t)nscripts); }
-        else if (x < 15 && depth_budget > 0) { st.kind = S_SPAWN_AWAIT_SP; st.arg = (int)r.below((uint32_t)nscripts); }
-        else if (x < 20 && depth_budget > 0) { st.kind = S_CALL_CHILD; st.arg = (int)r.below((uint32_t)nscripts); }
-        else if (x < 32) st.kind = S_PAUSE;
-        else if (x < 42) { st.kind = S_RESOLVE_DISCARD; st.arg = (int)r.below(c5_world::NF); }
-        else if (x < 48) { st.kind = S_RESOLVE_AWAIT; st.arg = (int)r.below(c5_world::NF); }
-        else if (x < 60) { st.kind = S_AWAIT_FUT; st.arg = (int)r.below(c5_world::NF); }
+        if (x < 9) { st.kind = S_SPAWN_DISCARD; st.arg = (int)r.below((uint32_t)nscripts); }
+        else if (x < 14) { if (nested_safe) continue; st.kind = S_SPAWN_AWAIT_SP; st.arg = (int)r.below((uint32_t)nscripts); }
+        else if (x < 19) { if (nested_safe) continue; st.kind = S_CALL_CHILD; st.arg = (int)r.below((uint32_t)nscripts); }
+        else if (x < 27 && nsafe > 0) { st.kind = S_START_CHILD; st.arg = nscripts + (int)r.below((uint32_t)nsafe); }
+        else if (x < 36) { if (nested_safe) continue; st.kind = S_PAUSE; }
+        else if (x < 45) { st.kind = S_RESOLVE_DISCARD; st.arg = (int)r.below(c5_world::NF); }
+        else if (x < 50) { if (nested_safe) continue; st.kind = S_RESOLVE_AWAIT; st.arg = (int)r.below(c5_world::NF); }
+        else if (x < 61) { st.kind = S_AWAIT_FUT; st.arg = (int)r.below(c5_world::NF); }
         else if (x < 70) st.kind = S_LOCK;
         else if (x < 77) st.kind = S_UNLOCK_DISCARD;
-        else if (x < 82) st.kind = S_UNLOCK_AWAIT;
+        else if (x < 82) { if (nested_safe) continue; st.kind = S_UNLOCK_AWAIT; }
         else if (x < 89) st.kind = S_PUSH_DISCARD;
-        else if (x < 93) st.kind = S_PUSH_AWAIT;
+        else if (x < 93) { if (nested_safe) continue; st.kind = S_PUSH_AWAIT; }
         else st.kind = S_POP;
         sc.push_back(st);
     }
@@ -287,7 +333,9 @@ inline void scheduling_programs(const vf::opts &o, vf::report &R, uint64_t progr
         auto Wp = std::make_unique<c5_world>();
         c5_world &W = *Wp;
         int nscripts = 2 + (int)r.below(5);
-        for (int s = 0; s < nscripts; s++) W.scripts.push_back(c5_random_script(r, nscripts, 1));
+        int nsafe = (int)r.below(3);
+        for (int s = 0; s < nscripts; s++) W.scripts.push_back(c5_random_script(r, nscripts, nsafe, false));
+        for (int s = 0; s < nsafe; s++) W.scripts.push_back(c5_random_script(r, nscripts, nsafe, true));
         int nroots = 1 + (int)r.below(3);
         bool bad_active = false;
         for (int k = 0; k < nroots; k++) { // roots entered from ordinary code; entry from inside a coroutine is covered by the spawn steps
@@ -323,7 +371,7 @@ inline void scheduling_programs(const vf::opts &o, vf::report &R, uint64_t progr
         if (err.empty() && W.finished != W.ncoro) err = "only " + std::to_string(W.finished) + " of " + std::to_string(W.ncoro) + " coroutines finished after everything they wait for was resolved";
         auto describe = [&]() {
             std::vector<std::string> ss;
-            for (auto &sc : W.scripts) { std::string s; for (auto &st : sc) s += std::string(sk_name(st.kind)) + (st.kind <= S_CALL_CHILD || (st.kind >= S_RESOLVE_DISCARD && st.kind <= S_AWAIT_FUT) ? "(" + std::to_string(st.arg) + ")" : "") + "; "; ss.push_back(vf::jstr(s)); }
+            for (auto &sc : W.scripts) { std::string s; for (auto &st : sc) s += std::string(sk_name(st.kind)) + (st.kind <= S_CALL_CHILD || st.kind == S_START_CHILD || (st.kind >= S_RESOLVE_DISCARD && st.kind <= S_AWAIT_FUT) ? "(" + std::to_string(st.arg) + ")" : "") + "; "; ss.push_back(vf::jstr(s)); }
             std::string tr;
             for (size_t i = 0; i < W.trace.size() && i < 400; i++) { auto &e = W.trace[i]; tr += (e.cid < 0 ? "N" + std::to_string(e.a) + ":" + std::to_string(e.b) : std::to_string(e.cid) + (e.kind == EV_BEGIN ? "b" : e.kind == EV_END ? "e" : "F") + (e.kind == EV_FINISH ? "" : std::to_string(e.a))) + " "; }
             return vf::jobj().kv("scenario", "scheduling_programs").kv("seed", (unsigned long long)o.seed).kv("program", (unsigned long long)pn).raw("scripts", vf::jarr(ss))
